@@ -37,11 +37,12 @@ type Req struct {
 }
 
 type Case struct {
-	Target  env.Target `json:"target"`
-	Reqs    []Req      `json:"reqs"`
-	Perm    []int      `json:"perm"`    // order used on the long-running server
-	Workers int        `json:"workers"` // goroutines of the concurrent phase
-	Rounds  int        `json:"rounds"`  // repetitions of the multiset in the concurrent phase
+	Target   env.Target `json:"target"`
+	Reqs     []Req      `json:"reqs"`
+	Perm     []int      `json:"perm"`               // order used on the long-running server
+	Workers  int        `json:"workers"`            // goroutines of the concurrent phase
+	Rounds   int        `json:"rounds"`             // repetitions of the multiset in the concurrent phase
+	Siblings int        `json:"siblings,omitempty"` // number of sibling requests (same URL, one option exchanged)
 }
 
 var sink = sync.OnceValue(func() *httptest.Server {
@@ -56,6 +57,10 @@ var optPool = []string{"segtimeline_1", "segtimelinenr_1", "tsbd_20", "tsbd_300"
 	"scte35_1", "scte35_3", "utc_direct-ntp", "utc_httpiso-head", "ltgt_2500", "spd_6", "sidx_1", "timesubsstpp_en,sv", "timesubswvtt_en", "timesubsstpp_en/timesubsdur_400/timesubsreg_1",
 	"eccp_cbcs", "eccp_cenc", "drm_EZDRM-1-key-cbcs-test", "drm_EZDRM-2-keys-cbcs-test", "patch_60", "annexI_a=1,b=2", "statuscode_[{cycle:30,rsq:1,code:404}]", "traffic_u10d20",
 	"ato_1/chunkdur_0.5", "segtimelineloss_1", "timeoffset_1.5", "stop_100000000", "tfdt_32/start_1600000000", "xlink_60/periods_60", "etp_60/periods_60", "insertad_1/periods_60", "mup_1/startrel_-20/stoprel_20"}
+
+var siblingOpts = [][2]string{{"drm_EZDRM-1-key-cbcs-test", "drm_EZDRM-2-keys-cbcs-test"}, {"eccp_cbcs", "eccp_cenc"}, {"eccp_cbcs", "drm_EZDRM-1-key-cbcs-test"},
+	{"segtimeline_1", "segtimelinenr_1"}, {"timesubsstpp_en,sv", "timesubsstpp_sv,en"}, {"scte35_1", "scte35_3"}, {"tsbd_20", "tsbd_300"}, {"snr_7", "snr_8"},
+	{"start_600", "start_602"}, {"timesubsdur_400", "timesubsdur_900"}, {"periods_60", "periods_30"}, {"ato_0.5", "ato_1"}, {"timeoffset_1.5", "timeoffset_-1.5"}}
 
 func genCase(t *rapid.T) (Case, *env.Env) {
 	tg := gen.Target(t, assetgen.Opts{Audio: []string{"", "aac"}, MinFrames: 25, MaxFrames: 100, AllowText: true, Forms: []string{"timeline", "number"}}, 75,
@@ -90,6 +95,9 @@ func genCase(t *rapid.T) (Case, *env.Env) {
 				seen[k] = true
 				ps = append(ps, strings.Split(o, "/")...)
 			}
+		}
+		if !seen["eccp"] && !seen["drm"] && rapid.IntRange(0, 3).Draw(t, "drm?") == 0 {
+			ps = append(ps, rapid.SampledFrom([]string{"eccp_cbcs", "eccp_cenc", "drm_EZDRM-1-key-cbcs-test", "drm_EZDRM-2-keys-cbcs-test"}).Draw(t, "drmopt"))
 		}
 		optsets = append(optsets, ps)
 	}
@@ -183,6 +191,23 @@ func genCase(t *rapid.T) (Case, *env.Env) {
 			}
 		}
 		c.Reqs = append(c.Reqs, r)
+		// a sibling request: the same URL with one option exchanged for a closely related one (other DRM package of the same
+		// scheme, other scheme, other timeline flavour ...). An answer that is cached under an incomplete key shows up as a
+		// dependence on which of the two was served first.
+		if !r.API && (rapid.IntRange(0, 2).Draw(t, "sibling?") == 0 || strings.Contains(r.URL, "/drm_") || strings.Contains(r.URL, "/eccp_")) {
+			var cands []string
+			for _, sw := range siblingOpts {
+				for k := 0; k < 2; k++ {
+					if strings.Contains(r.URL, "/"+sw[k]+"/") {
+						cands = append(cands, strings.Replace(r.URL, "/"+sw[k]+"/", "/"+sw[1-k]+"/", 1))
+					}
+				}
+			}
+			if len(cands) > 0 {
+				c.Reqs = append(c.Reqs, Req{Method: r.Method, URL: rapid.SampledFrom(cands).Draw(t, "sibling")})
+				c.Siblings++
+			}
+		}
 	}
 	c.Perm = rapid.Permutation(seq(len(c.Reqs))).Draw(t, "perm")
 	c.Workers = rapid.SampledFrom([]int{2, 4, 8, 16}).Draw(t, "workers")
@@ -205,7 +230,9 @@ type obs struct {
 	n     int
 }
 
-func (o obs) String() string { return fmt.Sprintf("%d %q %d bytes sha256=%s", o.code, o.ctype, o.n, o.sum[:12]) }
+func (o obs) String() string {
+	return fmt.Sprintf("%d %q %d bytes sha256=%s", o.code, o.ctype, o.n, o.sum[:12])
+}
 
 func do(s *ls.Server, r Req) (o obs) {
 	defer func() {
@@ -452,6 +479,9 @@ func TestC07(t *testing.T) {
 		}
 		if inf.dups > 0 {
 			cls["repeated-url"] = true
+		}
+		if c.Siblings > 0 {
+			cls["sibling-requests"] = true
 		}
 		var cl []string
 		for k := range cls {
